@@ -6,7 +6,9 @@ import pyref
 FAMILY = "countmin"
 CORR = "CountMin"          # Coq module DS.Corr.CountMin
 FAMNUM = 1                 # number in ocaml/Extract.v
-ORACLES = {"prop_ok": 0}
+ORACLES = {"prop_ok": 0}   # oracle name -> number in Corr/CountMin.v [oracles]
+GEN_MODULES = [("GenCountMin", ["countmin/serialization.rs", "countmin/sketch.rs"],
+                ["PREAMBLE_LONGS_SHORT", "SERIAL_VERSION", "FLAGS_IS_EMPTY", "LONG_SIZE_BYTES", "MAX_TABLE_ENTRIES"])]
 TYPES = [(0, 255), (1, 65535), (2, 2**32 - 1), (3, 2**64 - 1), (4, 127), (5, 32767), (6, 2**31 - 1), (7, 2**63 - 1)]
 OPNAMES = {0: "new", 1: "update", 2: "estimate", 3: "serialize", 4: "merge", 5: "halve", 6: "decay",
            7: "roundtrip", 8: "total", 9: "deserialize"}
